@@ -95,6 +95,33 @@ def sc_save_json(M, file_exists, rows=2, cols=2, atomic=True):
             bad.append((i, fs.trace_effects()[i] if hasattr(fs, "trace_effects") else None, repr(c)))
     M.meta["trace"] = [(op, p) for op, p, _ in fs.trace]
     M.check("atomic.every_crash_point", not bad, first_bad=str(bad[:1]), trace=str([(op, p) for op, p, _ in fs.trace]))
+    # interruptions delivered as an EXCEPTION (Ctrl-C, SIGTERM handler, MemoryError) at every operation: `finally` blocks
+    # and context managers run while the exception unwinds - afterwards the file must still be the old or the new one
+    m = fs.points
+    bad_int = []
+    for k in range(m):
+        for mid in (False, True):
+            fs.files.clear(); del fs.trace[:]; del fs.snapshots[:]
+            fs.points = 0
+            D2 = FSM.SymDict(lambda key: False, other_keys=OTHER_NAMES)
+            D2.name = "run-7"
+            old2 = None
+            if file_exists:
+                old2 = FSM.Doc(D2, "json")
+                fs.files[path.p] = old2
+            fs.interrupt_at, fs.interrupt_mid_write = k, mid
+            try:
+                save.save_json(path, "run-7", out)
+                interrupted = False
+            except KeyboardInterrupt:
+                interrupted = True
+            finally:
+                fs.interrupt_at = None
+            c = fs.files.get(path.p)
+            fine = (c is old2) or (isinstance(c, FSM.Doc) and c.kind == "json" and c is not old2)
+            if not fine:
+                bad_int.append((k, mid, interrupted, repr(c), [(op, p_) for op, p_, _ in fs.trace][-3:]))
+    M.check("atomic.every_interruption_by_exception", not bad_int, first_bad=str(bad_int[:1]))
 
 
 def _native_save_crash(M, file_exists, rows, cols):
